@@ -990,3 +990,54 @@ def _run_keep(self, cases, pid, tier):
 
 
 STREAMS.update({"views": Views()})
+
+
+# ------------------------------------------------------------------------------- rrset (C06, C07)
+class RRSet(Stream):
+    """record-set extraction against a code-blind resolver over the generated AST"""
+    name = "rrset"
+    rule = ("response ASTs built around a CNAME graph (chain 0..5, forks, loops, self-loops, dangling), owners and targets in random "
+            "letter case, final records of the requested type D (all 17 round-robin), decoys of other class/type/owner, shuffled "
+            "order, decoys in authority/additional, OPT absent / in additional (first, last, duplicated) / in authority with "
+            "extension 0/1/16/255, and the gate conditions (QR=0, TC, QDCOUNT 0/2/3, RCODE != 0) injected with 10-15% each; rendered "
+            "with none/greedy/random compression. Expected value computed from the AST by a 20-line resolver in the checker. "
+            "Non-trivial: all gates pass (the resolver runs). Distinct by (D, message).")
+
+    def generate(self, rng, tier, pid):
+        n = 3000 if tier == "quick" else 100000
+        out = []
+        self.expect = {}
+        for i in range(n):
+            ast, D, qname, qclass = GM.gen_response(rng)
+            msg, L = GM.render(rng, ast)
+            cid = "r%d" % i
+            self.expect[cid] = GM.expected_rrset(ast, D, qname, qclass)
+            out.append("%s rrset %d %s" % (cid, D, GM.hx(msg)))
+        return out
+
+    def nontrivial(self, line, impl):
+        return impl.startswith(("ok:", "err:NoAnswer"))
+
+    def classify(self, line, impl):
+        return impl.split("(")[0][:24]
+
+    def oracle(self, line, impl, spec, pid):
+        if impl.startswith(ABNORMAL) or "PANIC" in impl:
+            return "implementation " + impl[:60]
+        cid = line.split(" ", 1)[0]
+        exp = getattr(self, "expect", {}).get(cid)
+        if exp is None:
+            return None
+        if isinstance(exp, str):
+            if impl != exp:
+                return "expected %s, got %s" % (exp, impl[:120])
+            return None
+        _, name, qclass, ttl, hits = exp
+        want = "ok:RS(%s,%d,%d,[%s])" % ((b"".join(l + b"." for l in name) or b".").hex(), qclass, ttl,
+                                         ",".join(GM.fmt_rdata(r["rdata"]) for r in hits))
+        if impl != want:
+            return "record set differs from the resolver: got %s want %s" % (impl[:200], want[:200])
+        return None
+
+
+STREAMS.update({"rrset": RRSet()})
